@@ -341,8 +341,10 @@ func (vc *VC) applyContract(f *Frame, n *Node, in ssa.Instruction, fn *ssa.Funct
 	}
 	vc.separation(f, n, in, fn, fc, args)
 	st := n.St
+	var modTargets []modTarget
 	if fc.HasMod {
-		vc.havocTargets(st, vc.evalModifies(fc, env))
+		modTargets = vc.evalModifies(fc, env)
+		vc.havocTargets(st, modTargets)
 		// allocation is always permitted
 		nn := vc.fresh(stateSorts["next"], "next")
 		vc.assume(and(app("bvuge", nn, st.H["next"]), app("bvult", nn, bvLit(refBits, 1<<30))))
@@ -359,6 +361,14 @@ func (vc *VC) applyContract(f *Frame, n *Node, in ssa.Instruction, fn *ssa.Funct
 	post.what = env.what
 	for _, e := range fc.Ensures {
 		post.assumeClause(n.Reach, e.E)
+	}
+	// bytes written through a slice that aliases a bytes.Buffer (aliasing model of Bytes()) are the buffer's content
+	seenSync := map[string]bool{}
+	for _, t := range modTargets {
+		if t.heap == "H8" && !seenSync[t.ref] {
+			seenSync[t.ref] = true
+			vc.bufSyncOut(st, t.ref)
+		}
 	}
 	// a *bytes.Buffer handed to the callee as a writer never fails
 	for _, a := range args {
